@@ -3,10 +3,8 @@ package main
 
 import (
 	"verif/harness/internal/core"
-	_ "verif/harness/internal/engf"
 	_ "verif/harness/internal/engg"
-	_ "verif/harness/internal/engk"
-	_ "verif/harness/internal/engs"
+	// engines S, F and K are linked in once their checks are registered in MANIFEST.json
 )
 
 func main() { core.Main() }
